@@ -838,3 +838,264 @@ theorem unwind_refines_main (g : Cfg) (hsz : 1 ≤ g.addressSize ∧ g.addressSi
         cases se <;> cases me <;> simp_all [EndRel, FinalRel, Out.map, Except.map]
 
 end Gimli.Unwind
+
+namespace Gimli.Spec.Unwind
+open Gimli Gimli.Cfi Gimli.Unwind
+
+/-- the validity errors of the call-frame semantics -/
+def IsInvalid (e : Err) : Prop :=
+  e = .rInvalidCfiSetLoc ∨ e = .rAddressOverflow ∨ e = .rCfiInstructionInInvalidContext ∨ e = .rPopWithEmptyStack
+
+theorem step_error_invalid {p : Params} {s : State} {i : Instr} {e : Err}
+    (h : step p s i = .error e) : IsInvalid e := by
+  unfold IsInvalid
+  cases i <;> simp only [step] at h
+  all_goals (repeat' split at h)
+  all_goals (first | (cases h; simp) | (simp at h))
+
+/-- a row-creating instruction: the row spans from the old to the new location, never backwards -/
+theorem step_emit {p : Params} {s s' : State} {i : Instr} {row : TableRow}
+    (h : step p s i = .ok (s', some row)) :
+    row.start = s.loc ∧ row.end_ = s'.loc ∧ s.loc ≤ s'.loc ∧ row.rules = s.cur := by
+  cases i <;> simp only [step] at h
+  all_goals (repeat' split at h)
+  all_goals (first | (cases h; refine ⟨rfl, rfl, ?_, rfl⟩; simp only; omega) | (simp at h) | (cases h))
+
+theorem step_quiet {p : Params} {s s' : State} {i : Instr}
+    (h : step p s i = .ok (s', none)) : s'.loc = s.loc := by
+  cases i <;> simp only [step] at h
+  all_goals (repeat' split at h)
+  all_goals (first | (cases h; rfl) | (simp at h) | (cases h))
+
+theorem stepB_ok_step {p : Params} {R N : Cap} {s s' : State} {i : Instr} {r : Option TableRow}
+    (h : stepB p R N s i = .ok (s', r)) : step p s i = .ok (s', r) := by
+  unfold stepB at h
+  cases hs : step p s i with
+  | error e => rw [hs] at h; simp at h
+  | ok q =>
+    obtain ⟨s1, r1⟩ := q
+    rw [hs] at h
+    simp only at h
+    split at h
+    · simp at h
+    · split at h
+      · simp at h
+      · cases h; rfl
+
+/-- `rows` tile the addresses from `a` on: every row starts where the previous one ended, and every
+row that has a successor is not backwards -/
+def Tiles : Nat → List (Nat × Nat) → Prop
+  | _, [] => True
+  | a, [(s, _)] => s = a
+  | a, (s, e) :: r :: rest => s = a ∧ s ≤ e ∧ Tiles e (r :: rest)
+
+def spans (rows : List TableRow) : List (Nat × Nat) := rows.map (fun r => (r.start, r.end_))
+
+theorem Tiles.cons {a e : Nat} {rest : List (Nat × Nat)} (h : a ≤ e) (ht : Tiles e rest) :
+    Tiles a ((a, e) :: rest) := by
+  cases rest with
+  | nil => rfl
+  | cons r rest => exact ⟨rfl, h, ht⟩
+
+/-- rows of a Spec run tile the addresses from the current location; a clean end closes the table
+at `endAddr`; a run that ends with an error has only forward rows -/
+theorem exec_tiles (p : Params) (R N : Cap) (endAddr : Nat) (is : List Instr) (bad : Option Err) :
+    ∀ (s : State),
+      Tiles s.loc (spans (exec p R N endAddr s is bad).1) ∧
+      (∀ s', (exec p R N endAddr s is bad).2 = .ok s' →
+        ∃ last, (exec p R N endAddr s is bad).1.getLast? = some last ∧ last.end_ = endAddr) ∧
+      (∀ e, (exec p R N endAddr s is bad).2 = .error e →
+        ∀ r ∈ (exec p R N endAddr s is bad).1, r.start ≤ r.end_) := by
+  induction is with
+  | nil =>
+    intro s
+    cases bad with
+    | none => simp [exec, spans, Tiles]
+    | some e => simp [exec, spans, Tiles]
+  | cons i is ih =>
+    intro s
+    rw [exec]
+    cases hB : stepB p R N s i with
+    | error e => simp [spans, Tiles]
+    | ok q =>
+      obtain ⟨s1, r1⟩ := q
+      have hstep := stepB_ok_step hB
+      cases r1 with
+      | none =>
+        have := ih s1
+        rw [step_quiet hstep] at this
+        exact this
+      | some row =>
+        obtain ⟨h1, h2, h3, _⟩ := step_emit hstep
+        obtain ⟨t1, t2, t3⟩ := ih s1
+        simp only
+        refine ⟨?_, ?_, ?_⟩
+        · simp only [spans, List.map_cons, h1, h2]
+          exact Tiles.cons h3 t1
+        · intro s' hs'
+          obtain ⟨last, hl, he⟩ := t2 s' hs'
+          refine ⟨last, ?_, he⟩
+          rw [List.getLast?_cons, hl]; rfl
+        · intro e he r hr
+          simp only [List.mem_cons] at hr
+          rcases hr with e1 | hr
+          · subst e1; omega
+          · exact t3 e he r hr
+
+end Gimli.Spec.Unwind
+
+namespace Gimli.Spec.Unwind
+open Gimli Gimli.Cfi Gimli.Unwind
+
+theorem table_tiles (p : Params) (R N : Cap) (cie fde : List Instr) (cieBad fdeBad : Option Err) (initial len : Nat) :
+    Tiles initial (spans (table p R N cie cieBad fde fdeBad initial len).1) ∧
+    ((table p R N cie cieBad fde fdeBad initial len).2 = .ok () →
+      ∃ last, (table p R N cie cieBad fde fdeBad initial len).1.getLast? = some last ∧ last.end_ = fdeEnd p initial len) ∧
+    (∀ e, (table p R N cie cieBad fde fdeBad initial len).2 = .error e →
+      ∀ r ∈ (table p R N cie cieBad fde fdeBad initial len).1, r.start ≤ r.end_) := by
+  unfold table
+  simp only
+  cases h1 : (exec p R N 0 { loc := 0, cur := RuleSet.initial, stack := [], init := none } cie cieBad).2 with
+  | error e => simp [spans, Tiles]
+  | ok s1 =>
+    simp only
+    split
+    · simp [spans, Tiles]
+    · obtain ⟨t1, t2, t3⟩ := exec_tiles p R N (fdeEnd p initial len) fde fdeBad
+        { s1 with loc := initial, init := some s1.cur.regs }
+      refine ⟨t1, ?_, ?_⟩
+      · intro hok
+        cases h2 : (exec p R N (fdeEnd p initial len) { s1 with loc := initial, init := some s1.cur.regs } fde fdeBad).2 with
+        | error e => rw [h2] at hok; simp [Except.map] at hok
+        | ok s' => exact t2 s' h2
+      · intro e he
+        cases h2 : (exec p R N (fdeEnd p initial len) { s1 with loc := initial, init := some s1.cur.regs } fde fdeBad).2 with
+        | error e' => exact t3 e' h2
+        | ok s' => rw [h2] at he; simp [Except.map] at he
+
+end Gimli.Spec.Unwind
+
+namespace Gimli.Unwind
+open Gimli Gimli.Cfi Gimli.Spec.Unwind
+
+/-- the address ranges of returned rows -/
+def rowSpans (rows : List Row) : List (Nat × Nat) := rows.map (fun r => (r.startAddress, r.endAddress))
+
+theorem RowsRel.spans {m : List Row} {s : List TableRow} (h : RowsRel m s) : rowSpans m = spans s := by
+  induction h with
+  | nil => rfl
+  | cons hr _ ih =>
+    simp only [rowSpans, Spec.Unwind.spans, List.map_cons, hr.start, hr.end_] at ih ⊢
+    rw [ih]
+
+theorem RowsRel.getLast {m : List Row} {s : List TableRow} (h : RowsRel m s) {t : TableRow}
+    (ht : s.getLast? = some t) : ∃ r, m.getLast? = some r ∧ TableRowRel r t := by
+  induction h with
+  | nil => simp at ht
+  | @cons m0 t0 ms ts hr hrest ih =>
+    cases hrest with
+    | nil =>
+      simp only [List.getLast?_singleton, Option.some.injEq] at ht ⊢
+      subst ht
+      exact ⟨m0, rfl, hr⟩
+    | @cons m1 t1 ms' ts' hr1 hrest' =>
+      rw [List.getLast?_cons_cons] at ht ⊢
+      exact ih ht
+
+theorem RowsRel.forall {m : List Row} {s : List TableRow} (h : RowsRel m s)
+    (hs : ∀ t ∈ s, t.start ≤ t.end_) : ∀ r ∈ m, r.startAddress ≤ r.endAddress := by
+  induction h with
+  | nil => simp
+  | cons hr _ ih =>
+    intro r hmem
+    simp only [List.mem_cons] at hmem hs
+    rcases hmem with e | hmem
+    · subst e
+      rw [hr.start, hr.end_]
+      exact hs _ (Or.inl rfl)
+    · exact ih (fun t ht => hs t (Or.inr ht)) r hmem
+
+theorem rows_contiguous_main (g : Cfg) (hsz : 1 ≤ g.addressSize ∧ g.addressSize ≤ 8) (hR : g.R.fits 1)
+    (cie fde : List Instr) (cieBad fdeBad : Option Err) (initial len : Nat) :
+    Tiles initial (rowSpans (unwind g cie (tailOf cieBad) fde (tailOf fdeBad) initial len).1) ∧
+    ((unwind g cie (tailOf cieBad) fde (tailOf fdeBad) initial len).2 = .ok () →
+      ∃ last, (unwind g cie (tailOf cieBad) fde (tailOf fdeBad) initial len).1.getLast? = some last ∧
+        last.endAddress = fdeEnd g.params initial len) ∧
+    (∀ e, (unwind g cie (tailOf cieBad) fde (tailOf fdeBad) initial len).2 = .err e →
+      ∀ r ∈ (unwind g cie (tailOf cieBad) fde (tailOf fdeBad) initial len).1, r.startAddress ≤ r.endAddress) := by
+  obtain ⟨hrows, hfin⟩ := unwind_refines_main g hsz hR cie fde cieBad fdeBad initial len
+  obtain ⟨t1, t2, t3⟩ := table_tiles g.params g.R g.N cie fde cieBad fdeBad initial len
+  generalize unwind g cie (tailOf cieBad) fde (tailOf fdeBad) initial len = m at hrows hfin
+  generalize table g.params g.R g.N cie cieBad fde fdeBad initial len = s at hrows hfin t1 t2 t3
+  obtain ⟨mr, me⟩ := m
+  obtain ⟨sr, se⟩ := s
+  simp only at hrows hfin t1 t2 t3 ⊢
+  refine ⟨by rw [hrows.spans]; exact t1, ?_, ?_⟩
+  · intro hok
+    subst hok
+    cases se with
+    | error e => simp [FinalRel] at hfin
+    | ok u =>
+      obtain ⟨last, hl, he⟩ := t2 rfl
+      obtain ⟨r, hr, hrel⟩ := hrows.getLast hl
+      exact ⟨r, hr, by rw [hrel.end_, he]⟩
+  · intro e he
+    subst he
+    cases se with
+    | ok u => simp [FinalRel] at hfin
+    | error e' => exact hrows.forall (t3 e' rfl)
+
+/-- after `save_initial_rules`, `get_initial_rule` answers from the register rules the current
+row had at that moment — through the 0-rule shortcut, the 1-rule shortcut, or the saved row -/
+theorem saveInitialRules_getInitialRule {R : Cap} {c c' : Ctx} {top : Row} {rest : List Row}
+    (hst : c.stack = top :: rest) (h : saveInitialRules R c = .ok c') (r : Reg) :
+    c'.getInitialRule r = .ok (some (Rules.get top.rules r)) := by
+  unfold saveInitialRules at h
+  rw [hst] at h
+  simp only at h
+  match hrules : top.rules with
+  | [] =>
+    rw [hrules] at h
+    simp only [Out.ok.injEq] at h
+    subst h
+    simp [Ctx.getInitialRule]
+  | [rule] =>
+    rw [hrules] at h
+    simp only [Out.ok.injEq] at h
+    subst h
+    obtain ⟨r0, v0⟩ := rule
+    simp only [Ctx.getInitialRule, Bool.not_true, Bool.false_eq_true, if_false, Rules.get_cons, Rules.get_nil]
+    by_cases hr : r0 = r <;> simp [hr]
+  | r1 :: r2 :: rs =>
+    rw [hrules] at h
+    simp only at h
+    split at h
+    · simp only [Out.ok.injEq] at h
+      subst h
+      have : (top :: (rest ++ [top])).getLast? = some top := by
+        rw [← List.cons_append]; exact List.getLast?_concat
+      simp [Ctx.getInitialRule, this, hrules]
+    · cases h
+
+/-- `impl PartialEq for RegisterRuleMap` decides extensional equality (of duplicate-free maps) -/
+theorem Rules.eq_iff_ext {a b : Rules} (ha : Rules.NodupKeys a) (hb : Rules.NodupKeys b) :
+    Rules.eq a b = true ↔ ∀ r, Rules.get a r = Rules.get b r := by
+  have half : ∀ (x y : Rules), Rules.NodupKeys x →
+      ((x.all (fun kv => decide (some kv.2 = Rules.get y kv.1)) = true) ↔
+      (∀ r v, Rules.get x r = some v → Rules.get y r = some v)) := by
+    intro x y hx
+    simp only [List.all_eq_true, decide_eq_true_eq, Prod.forall]
+    constructor
+    · intro h r v hm; exact (h r v ((Rules.get_some_iff_mem hx r v).mp hm)).symm
+    · intro h r v hm; exact (h r v ((Rules.get_some_iff_mem hx r v).mpr hm)).symm
+  unfold Rules.eq
+  rw [Bool.and_eq_true, half a b ha, half b a hb]
+  constructor
+  · rintro ⟨h1, h2⟩ r
+    apply Option.ext
+    intro v
+    exact ⟨h1 r v, h2 r v⟩
+  · intro h
+    exact ⟨fun r v hv => by rw [← h r]; exact hv, fun r v hv => by rw [h r]; exact hv⟩
+
+end Gimli.Unwind
